@@ -35,6 +35,7 @@ type World struct {
 	Harness            *ssa.Package
 	LoadSeconds        float64
 	ZnFiles            []string // source files of the Zn packages that were loaded
+	Tier               int
 }
 
 // InterpretedStd lists standard-library packages whose SSA is executed (pure
